@@ -75,7 +75,7 @@ impl RealVectorStateSpace {
                     });
                 }
                 for bound in &explicit_bounds {
-                    if bound.0 >= bound.1 {
+                    if bound.0.is_nan() || bound.1.is_nan() || bound.0 >= bound.1 {
                         return Err(StateSpaceError::InvalidBound {
                             lower: bound.0,
                             upper: bound.1,
